@@ -7,5 +7,6 @@ CONSTANTS
   ClearOnReadFail = TRUE
   CtxEarly = FALSE
   ClearLate = FALSE
+  SharedExtras = FALSE
   UseLock = TRUE
 INVARIANT NoResidue
